@@ -1637,7 +1637,21 @@ mainloop:
 		}
 	}
 
-	return pickFallbackResponse(responseErrors, configErrors, fatalErrors)
+	resp, err = pickFallbackResponse(responseErrors, configErrors, fatalErrors)
+	if resp == nil && errors.Is(err, errConnectionFailed) {
+		// Every attempt ended in a transport error — but if this lookup's
+		// own context is over, the attempts were cut short by the request
+		// that led it (its deadline, its client going away), and that says
+		// nothing about the authorities. Report the request's own end: the
+		// leader fails as what it is, followers sharing this lookup through
+		// singleflight see a request-local error and elect a new leader
+		// under their own live contexts, and nobody files a zone failure
+		// for servers that were never given their time to answer.
+		if ctxErr := contextutil.EffectiveError(ctx); ctxErr != nil {
+			return nil, ctxErr
+		}
+	}
+	return resp, err
 }
 
 // linearDedupeLimit is the list size below which duplicate suppression
